@@ -224,12 +224,33 @@ func c08R5(w *World, r *Report) {
 		return
 	}
 	cl := combine(namedCalls(w, storeCalls), &Classifier{CallEdge: func(call ssa.Value, outcome string) *Event {
-		if c, ok := call.(*ssa.Call); ok && w.calleeName(&c.Call) == "context.Context.Err" && w.path(c.Call.Value) == "p:ctx" && outcome == "ok" {
-			return ev("ctxlive")
+		if c, ok := call.(*ssa.Call); ok && w.calleeName(&c.Call) == "context.Context.Err" && w.path(c.Call.Value) == "p:ctx" {
+			if outcome == "ok" {
+				return ev("ctxlive")
+			}
+			return ev("ctxdead")
 		}
 		return nil
 	}})
 	fl := newFlow(w, fn, cl)
+	// every answer — including the nil ack of an ack-only request — is given only
+	// while the flush context was live at entry; once the deadline has cancelled
+	// it, waiters get the abandonment error, never a success
+	for _, a := range answerSites(w) {
+		if a.fn != fn {
+			continue
+		}
+		f := fl.Before(a.call)
+		key := "handleFlush:answer(" + describeErrValue(w, a.value) + errTextKey(w, a.value) + ")"
+		switch {
+		case f.Must("ctxlive"):
+			r.ok(rule, key, w.instrPos(a.call), "answered while the flush context is live")
+		case f.Must("ctxdead"):
+			r.check(!isNilConst(a.value) && w.nonNilAt(a.value, a.call), rule, key, w.instrPos(a.call), "abandonment answered with a non-nil error", "after the Stop deadline a queued request is answered with a value that may be nil: the waiter reads success for work that was abandoned")
+		default:
+			r.bad(rule, key, w.instrPos(a.call), "waiters are answered before the entry ctx.Err() check: after the Stop deadline cancelled flush work a queued (ack-only) request still reports success instead of the abandonment error")
+		}
+	}
 	eachInstr(fn, func(in ssa.Instruction) {
 		c := callOf(in)
 		if c == nil {
